@@ -453,8 +453,10 @@ pub fn run(ctx: &Ctx) -> Result<(), String> {
         al.push(Ev::Handoff);
         let lt_pk = crypto::public_key(&crate::inproc::DEFAULT_SEED);
         for (client_stats, depth) in [(false, ctx.tier.pick(4usize, 5)), (true, ctx.tier.pick(3usize, 4))] {
-            for bs in [1u8, 3] {
-                let cfg = SrvCfg { batch_size: bs, client_stats, ..Default::default() };
+            // (batch_size, fault_percentage): with fault injection on, deliberately invalid replies
+            // differ in length from genuine ones; the byte total is still what was sent
+            for (bs, fault) in [(1u8, 0u8), (3, 0), (3, 50)] {
+                let cfg = SrvCfg { batch_size: bs, client_stats, fault, ..Default::default() };
                 let n = al.len().pow(depth as u32);
                 par_for(n, 16, |idx, _| {
                     let h = c09::history_from_index(idx, depth, &al);
@@ -487,7 +489,7 @@ pub fn run(ctx: &Ctx) -> Result<(), String> {
                     let framed = obs.received.iter().flat_map(|r| r.iter()).filter(|d| d.0.len() >= 8 && &d.0[..8] == rtref::codec::FRAME_MAGIC).count() as u64;
                     let want = c09::StatsSnap { valid: sent_c + sent_i, classic: sent_c, rfc: sent_i, invalid: sent_x, responses: recv_n, classic_resp: recv_n - framed, rfc_resp: framed, bytes: recv_b, failed_sends: 0, health: 0 };
                     if st != want {
-                        ctx.violation("stats-differ-from-traffic", "server-wiring", if client_stats { "per-client" } else { "aggregated" },
+                        ctx.violation("stats-differ-from-traffic", "server-wiring", &format!("{}{}", if client_stats { "per-client" } else { "aggregated" }, if fault > 0 { "/fault-injection-on" } else { "" }),
                             json!({"kind":"events","history":c09::hist_json(&cfg, &h),"recorded":format!("{:?}", st),"traffic":format!("{:?}", want)}));
                     }
                 });
@@ -585,7 +587,7 @@ pub fn run(ctx: &Ctx) -> Result<(), String> {
     ctx.cov("sampled_evaluations", json!(sampled));
     ctx.cov("exhaustive", json!(true));
     ctx.cov("bound", json!({"recorder_len": len1, "recorder_ops": 25, "limits": [1, 2], "merge_len": len2, "merge_events": 15, "wiring_depth": ctx.tier.pick("4 (aggregated) / 3 (per-client)", "5 / 4")}));
-    ctx.cov("rule", json!(format!("(1) all sequences of length <= {} over 8 recording operations x 3 addresses + clear on the real PerClientStats (limit 1 and 2) and AggregatedStats, with a step oracle after every operation: the observable state (per-address counters, bytes, overflow count) changed by exactly the event's own counter +1 (bytes + argument) OR overflow +1; tracked <= limit; every getter equals the sum over rows; iter() == rows; aggregated totals equal per-client totals while overflow is 0. states = distinct canonical recorder states reached. (2) all sequences of {} events over {{record(w,op,addr) x12, snapshot(w0), snapshot(w1), receive}} + final receive through the real iter->force_push->clear hand-off, the real ArrayQueue (capacity 4) and the real Reporter::receive_client_stats, against a model queue that drops the oldest snapshot when full: reporter per-address sums == sums of popped snapshots. (3) C09 event histories extended with the periodic hand-off event on real Servers (aggregated and per-client recorder): recorded valid/classic/ietf/invalid/responses/bytes == datagrams actually sent and received (histories without hand-off); every hand-off returns even when the undrained queue is full (wedge watchdog), traffic still served. (4) the real Responder driven through its public API: every sequence (length <= 3, thorough 4) of return addresses over {{two receiving sockets, addresses send_to fails for (IPv6 on an IPv4 socket, port 0, broadcast)}} as one batch and then reversed as a second batch, both protocols, both recorders: responses / bytes recorded == datagrams / bytes that arrived, failed send attempts == unsendable addresses, after each batch.", len1, len2)));
+    ctx.cov("rule", json!(format!("(1) all sequences of length <= {} over 8 recording operations x 3 addresses + clear on the real PerClientStats (limit 1 and 2) and AggregatedStats, with a step oracle after every operation: the observable state (per-address counters, bytes, overflow count) changed by exactly the event's own counter +1 (bytes + argument) OR overflow +1; tracked <= limit; every getter equals the sum over rows; iter() == rows; aggregated totals equal per-client totals while overflow is 0. states = distinct canonical recorder states reached. (2) all sequences of {} events over {{record(w,op,addr) x12, snapshot(w0), snapshot(w1), receive}} + final receive through the real iter->force_push->clear hand-off, the real ArrayQueue (capacity 4) and the real Reporter::receive_client_stats, against a model queue that drops the oldest snapshot when full: reporter per-address sums == sums of popped snapshots. (3) C09 event histories extended with the periodic hand-off event on real Servers (aggregated and per-client recorder): recorded valid/classic/ietf/invalid/responses/bytes == datagrams actually sent and received (histories without hand-off; batch_size 1 and 3, and 3 with fault_percentage 50, where deliberately invalid replies differ in length); every hand-off returns even when the undrained queue is full (wedge watchdog), traffic still served. (4) the real Responder driven through its public API: every sequence (length <= 3, thorough 4) of return addresses over {{two receiving sockets, addresses send_to fails for (IPv6 on an IPv4 socket, port 0, broadcast)}} as one batch and then reversed as a second batch, both protocols, both recorders: responses / bytes recorded == datagrams / bytes that arrived, failed send attempts == unsendable addresses, after each batch.", len1, len2)));
     ctx.sample(json!({"kind":"recorder","limit":1,"names":["classic_req@a0","rfc_resp@a1","clear","health@a1"]}));
     ctx.sample(json!({"kind":"merge","events":["rec:w0:classic_req:a0","snap:w0","rec:w1:classic_req:a0","snap:w1","receive"]}));
     ctx.assume("part 2 reuses one Reporter per chunk of histories (Reporter::new allocates a 5M-entry map); the model is cumulative, so the oracle stays exact");
